@@ -166,9 +166,10 @@ func c12(c *Sexp) *Sexp {
 				slots.List = append(slots.List, L(A("D"), A("-1"), A("-1"), A("-1"), L(), L(A("N"), A(nm), L(), L(A("U")))))
 			}
 		}
-		t, bad := c12Build(L(A("N"), A(""), L(), slots))
-		if bad != nil {
-			return bad
+		// no index is computed here (bit sets of 2^16 tips for 2^16 branches); ParsimonyAcr needs none
+		t, berr := BuildTree(L(A("N"), A(""), L(), slots))
+		if berr != nil {
+			return L(KV("panic", A("build: "+berr.Error())))
 		}
 		_, nsteps, err := acr.ParsimonyAcr(t, tipstates, c12AcrAlgo(c.Str("algo")), false)
 		altered := 0
